@@ -4,6 +4,7 @@ import (
 	"fmt"
 	"go/ast"
 	"go/constant"
+	"go/token"
 	"go/types"
 	"sort"
 	"strings"
@@ -122,10 +123,32 @@ func (e *Enum) setIsIota() {
 	e.IsIota = true
 }
 
+// valueSpecAt returns the declaration of the constant or variable named at `pos`,
+// which may declare several names (like in const A, B = 1, 2),
+// or panics if not found
+func valueSpecAt(pa *packages.Package, pos token.Pos) *ast.ValueSpec {
+	declFile := pa.Fset.File(pos)
+	for _, file := range pa.Syntax { // select the right file
+		if pa.Fset.File(file.Pos()) != declFile {
+			continue
+		}
+		var out *ast.ValueSpec
+		ast.Inspect(file, func(n ast.Node) bool {
+			if spec, isSpec := n.(*ast.ValueSpec); isSpec && spec.Pos() <= pos && pos < spec.End() {
+				out = spec
+			}
+			return out == nil
+		})
+		if out != nil {
+			return out
+		}
+	}
+	panic("declaration not found in Package.Syntax " + pa.String())
+}
+
 // fetchConstComment retrieve the comment, not exposed in go/types
 func fetchConstComment(pa *packages.Package, obj *types.Const) string {
-	node := nodeAt(pa, obj.Pos())
-	spec := node.(*ast.ValueSpec)
+	spec := valueSpecAt(pa, obj.Pos())
 	if spec.Comment == nil {
 		return ""
 	}
